@@ -47,7 +47,7 @@ func (c *ctx) accepted(groups ...string) []*universe.UStruct {
 func (c *ctx) cfg() *genCfg {
 	ml := 12
 	if c.tier == "thorough" {
-		ml = 120
+		ml = 48
 	}
 	return &genCfg{r: c.r, maxLen: ml, bigStr: true, depth: 3, enum32: true, holders: true}
 }
